@@ -51,7 +51,10 @@ Detail(ev) == IF Died(ev) THEN ToString(<<ev.kind, ev.file, ev.line, IF Has(ev, 
 (* labels: the observed site, refined by the model's name of the missing guard when the model explains exactly this crash *)
 StFails(ev, pred, md) ==
   LET hs == IF pred.res = "resource" THEN pred.site \o "/" \o pred.why ELSE ev.e
-      ex == IF pred.why # "" /\ pred.res \in {"crash", "unk"} /\ (pred.site = ev.site \/ pred.site = "?") THEN "/" \o pred.why ELSE "" IN
+      ex == IF pred.res \notin {"crash", "unk"} THEN ""
+            ELSE IF pred.why # "" /\ (pred.site = ev.site \/ pred.site = "?") THEN "/" \o pred.why
+            ELSE IF pred.awhy # "" /\ pred.asite = ev.site THEN "/" \o pred.awhy
+            ELSE "" IN
   IF ev.st = "crash" THEN {Fail("crash@" \o ev.site \o ex, ev, Detail(ev) \o md)}
   ELSE IF ev.st = "throw" THEN {Fail("throw@" \o ev.site \o ex, ev, Detail(ev) \o md)}
   ELSE IF ev.st = "timeout" THEN {Fail("hog@" \o hs, ev, "cpu limit " \o Detail(ev) \o " in " \o ev.site \o md)}
